@@ -2,7 +2,7 @@
    [part_all p] = every message the partition stores (log files then buffer, segment by segment).
    FULL statement (history level, includes the cursor after restart/retention; see DESIGN.md, proved
    in the refinement development when present): *)
-From IggyV Require Import Base.Tactics Base.ListX Model.Part Model.PartSpec Proofs.PartBasics Proofs.PartHistory Proofs.PartCounts Proofs.CacheHistory Proofs.OffsetsHistory Proofs.ReadExact Proofs.ReadPart Proofs.ReadHistory Proofs.ExpiryBasics Proofs.ExpiryHistory Proofs.DedupHistory Proofs.Refine.
+From IggyV Require Import Base.Tactics Base.ListX Model.Part Model.PartSpec Proofs.PartBasics Proofs.PartHistory Proofs.PartCounts Proofs.CacheHistory Proofs.OffsetsHistory Proofs.ReadExact Proofs.ReadPart Proofs.ReadHistory Proofs.ExpiryBasics Proofs.ExpiryHistory Proofs.DedupHistory Proofs.TsPolls Proofs.Refine.
 Open Scope N_scope.
 
 Definition C01_full : Prop :=
@@ -82,7 +82,8 @@ Qed.
 (* PROVED - REFINEMENT (Proofs/Refine.v): the specification monitor accepts EVERY run of the model, i.e. for every operation
    list every accepted send extends the abstract log by exactly the kept messages numbered from its length, refusals change nothing, the reported current offset is the last position of the abstract log after every operation (also after restarts, purges and retention).  This is C01_full under the guards the real code itself enforces or the model needs: segment size > 0, poll counts >= 1
    (System::poll_messages refuses count 0 before the partition is reached), offsets and log files below 2^32 (32-bit index
-   fields), send timestamps non-zero and never going backwards; by-timestamp polls are the one operation kind left out. *)
+   fields), send timestamps non-zero and never going backwards, restarts not before the last send.  Polls of every kind are
+   covered: by offset, by timestamp, first, last, next. *)
 Theorem C01_refinement : forall ops c t0, 0 < c_seg c -> times_ok 0 ops -> Forall poll_ok ops ->
   Forall bounds_ok (prun_states (c, part_new c t0) ops) -> model_check c t0 ops = 0.
 Proof. exact model_refines_spec. Qed.
